@@ -10,8 +10,8 @@
      spec_points pl pre run post        [entry extension] ++ run ++ [exit extension]  (enter / leave)
      closed_spec_points pl run rest     the same with the neighbours taken cyclically: before = last rest, after = first rest
    The model (coq/model/M_polyline_slice.v) is the code with fixes/C06-closed-slice.diff and
-   fixes/C06-crossing-from-signed-distances.diff.  The clause "the result is an open polyline" is not a statement about
-   real arithmetic: the model returns the rows only; the flag is compared by the correspondence check and the oracle.
+   fixes/C06-crossing-from-signed-distances.diff.  `sliced_by_plane` is the vertex array of the result,
+   `sliced_polyline` the returned value (rows + is_closed flag), see C06_result_is_open.
    Binary64: the theorems are over the reals.  That a vertex within rounding error of the plane still gives finite
    rows is checked on sampled inputs (near_plane / near_oblique streams), not proved. *)
 From Coq Require Import ZArith Reals List Bool Lra.
@@ -84,6 +84,13 @@ Theorem C06_interior_vertices_identical : forall pl p rows,
     exists x y pre post, pv p = x ++ y /\ y ++ x = pre ++ run ++ post.
 Proof. exact interior_vertices_identical. Qed.
 
+(* what is returned is an OPEN polyline whose vertex rows are the rows characterised above; exceptions unchanged *)
+Theorem C06_result_is_open : forall pl p,
+  (forall r, sliced_polyline ROps pl p = Ok r -> s_closed r = false /\ sliced_by_plane ROps pl p = Ok (s_rows r)) /\
+  (forall rows, sliced_by_plane ROps pl p = Ok rows -> sliced_polyline ROps pl p = Ok (MkSliced rows false)) /\
+  (forall e, sliced_polyline ROps pl p = Raise e <-> sliced_by_plane ROps pl p = Raise e).
+Proof. exact result_is_open. Qed.
+
 (* the only exception the model ever raises is ValueError *)
 Theorem C06_only_value_error : forall pl p e,
   sliced_by_plane ROps pl p = Raise e -> e = ValueError.
@@ -129,5 +136,5 @@ Proof. left. unfold xplane. split; punf; lra. Qed.
 Definition C06_all := (C06_in_front_iff, C06_extension_points, C06_crossing_param_in_unit_interval,
   C06_crossing_row_is_point, C06_crossing_on_plane, C06_crossing_agrees_with_intersect_segment, C06_slice_open_refines_spec, C06_sliced_open_refines_spec,
   C06_sliced_closed_refines_spec, C06_result_finite_not_behind, C06_interior_vertices_identical,
-  C06_only_value_error).
+  C06_only_value_error, C06_result_is_open).
 Print Assumptions C06_all.
